@@ -211,7 +211,10 @@ def md_params(draw):
             n = max(1, n // 7)
     C = draw(st.sampled_from([1, 1, 2, 5, 10, 60, 3600]))
     S = C * draw(st.sampled_from([1, 2, 3, 10, 60]))
-    return {"n": n, "d": d, "C": C, "S": S, "prefix": draw(st.sampled_from(["metadata", "md", "x_y"])),
+    return {"n": n, "d": d, "C": C, "S": S,
+            # file-name prefixes: the usual ones, and legal ones that resemble other things ("tmp102" is not a tmp. file,
+            # "duty50%%" is not a format string, "x.y" has a dot)
+            "prefix": draw(st.sampled_from(["metadata", "md", "x_y", "metadata", "md", "tmp102", "duty50%%", "x.y", "a-b"])),
             # how the integer parameters are handed to the writer: Python ints, integer-valued floats (10e6 is a usual way
             # of spelling a rate; accepted by the documented "must be an integer value" test), numpy integers
             "ptype": draw(st.sampled_from(["int", "int", "float", "np"]))}
